@@ -39,7 +39,7 @@ def run(ctx):
     for mr in models(ctx.quick):
         res = npx.run_model(ctx, mr, coverage=not ctx.quick)
         thin = (lambda inp: 3 if (inp["engine"] == "hash" and inp["k"] >= 2) else 1)
-        npx.replay_emitted(ctx, res, [nc.AA], classify=classify, thin=thin)
+        npx.replay_emitted(ctx, res, [nc.AA], classify=classify, thin=thin, budget=None if ctx.quick else 60000)
     ctx.exhaustive = True
     sessions, sid = [], 0
     sub = "ACDHIY"
